@@ -38,6 +38,13 @@ package main
 // on each of the four legs) are judged: they must travel like any other message. A call in which a peer sends
 // a message beyond one of the limits is compared like a call under a fault from then on.
 //
+// Backend addresses have every shape a route target may have: host names, IPv4 literals, IPv6 literals in
+// brackets (all of one shape or mixed within a table; an IPv6 literal now and then in a non-canonical spelling).
+// The simulated network is keyed by the host:port a correct dialer hands to it: the dialer the harness gives to
+// fabio's connections resolves a well-formed host:port (IP literals by value, whatever the spelling) and fails
+// like net.Dial on anything else, e.g. an IPv6 literal that lost its brackets (c16DialKey). The oracle is the
+// same for every shape: a call that matches a route must reach a backend of that route.
+//
 // Nothing that depends on grpc-go's frame batching reaches the trace: the
 // trace consists of the driver's events and of per-call / per-backend
 // summaries printed by the driver at quiescent states in canonical order.
@@ -49,6 +56,7 @@ import (
 	"io"
 	"math/rand"
 	"net"
+	"net/netip"
 	"sort"
 	"strconv"
 	"strings"
@@ -147,7 +155,11 @@ type c16Outage struct {
 }
 
 type c16Scenario struct {
+	// Backends are the addresses the stub backends listen on, as the simulated network keys them (host names as
+	// they are, IP literals in their canonical text form); Written is the host:port of each backend as the routing
+	// tables spell it (the same address, an IPv6 literal possibly in another of its spellings).
 	Backends        []string      `json:"backends"`
+	Written         []string      `json:"backend_addresses_as_written_in_the_tables"`
 	Callers         int           `json:"callers"`
 	Tables          []c16Table    `json:"tables"`
 	Changes         []c16Change   `json:"table_changes"`
@@ -180,7 +192,76 @@ const c16DocDefaultLimit = 4194304
 // limits are ever in the way.
 const c16StubLimit = 64 << 20
 
-var c16AllBackends = []string{"b0.sim:8000", "b0.sim:8001", "b1.sim:8000", "b2.sim:8000"}
+// c16AllBackends: every backend slot has an address of each shape a route target may have: a host name, an IPv4
+// literal, an IPv6 literal (in brackets, as a URL and a host:port carry it). In every shape slots 0 and 1 share
+// the host and differ in the port.
+var c16AllBackends = [3][]string{
+	{"b0.sim:8000", "b0.sim:8001", "b1.sim:8000", "b2.sim:8000"},
+	{"10.1.0.10:8000", "10.1.0.10:8001", "192.168.7.1:8000", "172.16.0.254:8000"},
+	{"[2001:db8::1]:8000", "[2001:db8::1]:8001", "[::1]:8000", "[fd00:1:2:3:4:5:6:7]:8000"},
+}
+
+const (
+	c16ShapeName = iota
+	c16ShapeIPv4
+	c16ShapeIPv6
+)
+
+// c16GenBackends draws the address shape of every backend: all host names (half of the runs, value 0), all IPv4
+// literals, all IPv6 literals, or a shape per backend (mixed tables). An IPv6 literal is written into the routing
+// tables in its canonical form or, now and then, in another spelling of the same address (upper-case digits, no
+// "::" compression); one backend keeps one spelling for the whole run.
+func c16GenBackends(g *simcore.Tape, nb int) (keys, written []string) {
+	mode := []int{0, 0, 0, 0, 0, 1, 2, 2, 3, 3}[g.Intn(10)]
+	for i := 0; i < nb; i++ {
+		shape := mode
+		if mode == 3 {
+			shape = g.Intn(3)
+		}
+		key := c16AllBackends[shape][i]
+		w := key
+		if shape == c16ShapeIPv6 && g.Chance(20) {
+			host, port, _ := net.SplitHostPort(key)
+			ip := netip.MustParseAddr(host)
+			if g.Bool() {
+				w = net.JoinHostPort(ip.StringExpanded(), port)
+			} else {
+				w = strings.ToUpper(key)
+			}
+		}
+		keys, written = append(keys, key), append(written, w)
+	}
+	return
+}
+
+// c16Shape tells the shape of a backend address (as keyed by the simulated network).
+func c16Shape(key string) int {
+	host, _, _ := net.SplitHostPort(key)
+	ip, err := netip.ParseAddr(host)
+	switch {
+	case err != nil:
+		return c16ShapeName
+	case ip.Is4():
+		return c16ShapeIPv4
+	}
+	return c16ShapeIPv6
+}
+
+// c16DialKey is the name resolution of the simulated network for the addresses fabio dials: a well-formed
+// host:port (an IPv6 literal in brackets) leads to the listener keyed by the host name as it is or by the
+// canonical text form of the IP literal, so every spelling of one IP address reaches the same backend; anything
+// that is not a host:port fails the way net.Dial fails on it, and no backend is contacted.
+func c16DialKey(addr string) (string, error) {
+	host, port, err := net.SplitHostPort(addr)
+	if err != nil {
+		return "", &net.OpError{Op: "dial", Net: "tcp", Err: err}
+	}
+	if ip, perr := netip.ParseAddr(host); perr == nil {
+		return net.JoinHostPort(ip.String(), port), nil
+	}
+	return addr, nil
+}
+
 var c16Services = []string{"/sim.Alpha", "/sim.Beta", "/x.Gamma"}
 var c16Methods = []string{"Do", "Stream", "X_y.z9"}
 
@@ -411,7 +492,7 @@ func c16Gen(g *simcore.Tape, thorough bool) *c16Scenario {
 	sc := &c16Scenario{ResetCall: -1}
 	nb := g.Range(1, 4)
 	ns := g.Range(1, 3)
-	sc.Backends = c16AllBackends[:nb]
+	sc.Backends, sc.Written = c16GenBackends(g, nb)
 	sc.Callers = g.Range(1, 2)
 	sc.ShutdownTimeout = simcore.Pick(g, []time.Duration{2 * time.Second, 200 * time.Millisecond, 20 * time.Second})
 	sc.Stick = []int{1, 1, 3, 8}[g.Intn(4)]
@@ -450,7 +531,7 @@ func c16Gen(g *simcore.Tape, thorough bool) *c16Scenario {
 	}
 	sort.SliceStable(sc.Changes, func(i, j int) bool { return sc.Changes[i].AfterDone < sc.Changes[j].AfterDone })
 	for i := range sc.Tables {
-		sc.Tables[i].Text = c16TableText(&sc.Tables[i], sc.Backends)
+		sc.Tables[i].Text = c16TableText(&sc.Tables[i], sc.Written)
 	}
 
 	for i := 0; i < nc; i++ {
@@ -767,6 +848,8 @@ type c16Env struct {
 	callers  []*grpc.ClientConn
 	dials    []c16Dial
 	dialsLog int
+	badAddr  []string // addresses handed to the network by fabio's connections that are not a host:port
+	badLog   int
 	stray    []string
 	srv      *grpc.Server
 	stop     chan struct{}
@@ -1304,6 +1387,10 @@ func (e *c16Env) observe() {
 	for ; e.dialsLog < len(e.dials); e.dialsLog++ {
 		r.Tracef("fabio opens a client connection to %s", e.dials[e.dialsLog].target)
 	}
+	for ; e.badLog < len(e.badAddr); e.badLog++ {
+		_, err := c16DialKey(e.badAddr[e.badLog])
+		r.Tracef("a connection of fabio asks the network for %q, which is not a host:port (%v): nobody is contacted", e.badAddr[e.badLog], err)
+	}
 	pendingNoRoute := false
 	inflight := make([]int, len(e.backends))
 	for _, c := range e.calls {
@@ -1576,7 +1663,22 @@ func runC16(r *simcore.Run) {
 	reconnect.Jitter = 0
 	proxy.ZZGrpcDialOptions = func() []grpc.DialOption {
 		return []grpc.DialOption{grpc.WithContextDialer(func(ctx context.Context, addr string) (net.Conn, error) {
-			return e.net.Dial(ctx, nil, addr, 0)
+			// addr is the address grpc-go hands to the network: for the pass-through targets fabio uses, the
+			// target's host:port as fabio gave it
+			key, err := c16DialKey(addr)
+			if err != nil {
+				e.mu.Lock()
+				seen := false
+				for _, a := range e.badAddr {
+					seen = seen || a == addr
+				}
+				if !seen {
+					e.badAddr = append(e.badAddr, addr)
+				}
+				e.mu.Unlock()
+				return nil, err
+			}
+			return e.net.Dial(ctx, nil, key, 0)
 		}), grpc.WithConnectParams(grpc.ConnectParams{Backoff: reconnect, MinConnectTimeout: 20 * time.Second})}
 	}
 	proxy.ZZGrpcOnDial = func(target string, cc *grpc.ClientConn, err error) {
@@ -1907,6 +2009,15 @@ func (e *c16Env) check() {
 		}
 		if sc.Reply.Code != 0 && strings.Contains(sc.Reply.Msg, "%") {
 			r.Probe("status_message_with_percent")
+		}
+		switch c16Shape(e.backends[c.bIdx].key) {
+		case c16ShapeIPv4:
+			r.Probe("compared_call_at_ipv4_backend")
+		case c16ShapeIPv6:
+			r.Probe("compared_call_at_ipv6_backend")
+			if e.sc.Written[c.bIdx] != e.sc.Backends[c.bIdx] {
+				r.Probe("compared_call_at_ipv6_backend_in_another_spelling")
+			}
 		}
 		for _, n := range sc.Sizes {
 			if n > 60000 {
